@@ -102,7 +102,8 @@ Lemma exec_fp_Call_eq : forall ord d sub formals preds body args st,
    do r <- exec_list_fp ord d true body callee;
    let (st', t) := r in
    Ok (with_env (s_env st) st',
-       tapp (tev (reads_actuals st formals args ++ reads_list callee preds)) t)).
+       tapp (tev (reads_actuals st formals args ++ reads_bind_args formals acts (with_env [] st)
+                  ++ reads_list callee preds)) t)).
 Proof. reflexivity. Qed.
 
 Lemma exec_list_fp_nil : forall ord d sub st, exec_list_fp ord d sub [] st = Ok (st, tnil).
